@@ -199,3 +199,60 @@ fn dc_chain_delays() {
     assert!(devs[1].propagation_delay == d1);
     assert!(devs[2].propagation_delay == d1 + d2);
 }
+
+fn offsets_leaf(k: u8) {
+    let mut parent = dev(0, any_links(any_times()), vk::any());
+    let mut child = dev(1, any_links(any_times()), vk::any());
+    vk::assume(parent.ports.open_ports() == k && child.ports.open_ports() >= 1);
+    child.parent_index = Some(0);
+    let assigned = parent.ports.assign_next_downstream_port(core::num::NonZeroU16::new(1).unwrap());
+    vk::assume(assigned.is_some());
+    let acc0: u32 = vk::any();
+    let mut acc = acc0;
+    let parents = [parent];
+    configure_subdevice_offsets(&mut child, &parents, &mut acc);
+    let parent = &parents[0];
+    assert!(acc >= acc0, "the accumulated delay never decreases");
+    assert!(child.propagation_delay == acc, "the device is given the accumulated delay");
+    let pt = parent.ports.total_propagation_time().unwrap_or(0);
+    let ct = child.ports.total_propagation_time().unwrap_or(0);
+    let port = *parent.ports.port_assigned_to(&child).unwrap();
+    let is_child = child.is_child_of(parent);
+    let want = match parent.ports.topology() {
+        Topology::Passthrough => pt.saturating_sub(ct) / 2,
+        Topology::Fork => {
+            if is_child {
+                parent.ports.propagation_time_to(&port).unwrap_or(0).saturating_sub(ct) / 2
+            } else {
+                pt.saturating_sub(ct) / 2
+            }
+        }
+        Topology::Cross => {
+            if is_child {
+                parent.ports.intermediate_propagation_time_to(&port).saturating_sub(ct) / 2
+            } else {
+                pt.saturating_sub(acc0)
+            }
+        }
+        Topology::LineEnd => 0,
+    };
+    assert!(acc == acc0.saturating_add(want), "delay increment");
+}
+
+macro_rules! leaf_harness {
+    ($name:ident, $k:expr) => {
+        #[cfg_attr(kani, kani::proof)]
+        #[cfg_attr(kani, kani::unwind(12))]
+        #[cfg_attr(all(test, verif_replay), test)]
+        fn $name() {
+            offsets_leaf($k);
+        }
+    };
+}
+
+//@h name=dc_offsets_leaf_pass props=C17 bounded="one parent with 2 open ports (passthrough) + one child; which ports, the child's link pattern (>= 1 open port), all 8 port times and the accumulated delay fully symbolic" fn=src/dc.rs::configure_subdevice_offsets obligation="configure_subdevice_offsets for ANY port times: never panics; the accumulated delay never decreases and the child is ALWAYS given the accumulated delay (also when the parent measured no loop time); the increment is half of the parent/child loop-time difference (passthrough), of the children-loop time minus the child's own (fork/cross child), or the remaining part of the parent's loop (cross, not a child) - in terms of the Ports functions proved in group `ports`"
+leaf_harness!(dc_offsets_leaf_pass, 2);
+//@h name=dc_offsets_leaf_fork props=C17 bounded="as dc_offsets_leaf_pass with a parent with 3 open ports (fork)" fn=src/dc.rs::configure_subdevice_offsets
+leaf_harness!(dc_offsets_leaf_fork, 3);
+//@h name=dc_offsets_leaf_cross props=C17 bounded="as dc_offsets_leaf_pass with a parent with 4 open ports (cross)" fn=src/dc.rs::configure_subdevice_offsets
+leaf_harness!(dc_offsets_leaf_cross, 4);
